@@ -12,7 +12,7 @@ use netconf::message::rpc::operation::{
 use netconf::{Error, Session};
 
 use crate::core::{Ctx, PropSpec, Tier, Verdict};
-use crate::doc::{canonical, gen_rpc_error, RpcErr, E, NS};
+use crate::doc::{canonical, gen_rpc_error_with_extras, RpcErr, E, NS};
 use crate::ev;
 use crate::ssim::{drive, hello_with, Quiescence, SchedCfg, Server, SimTransport, CAP_BASE10, CAP_CANDIDATE, CAP_JUNOS, MARKER};
 
@@ -48,7 +48,7 @@ fn gen_case(ctx: &mut Ctx) -> Case {
     let mut uniq = 0;
     let mut err = |ctx: &mut Ctx| {
         uniq += 1;
-        gen_rpc_error(ctx, uniq, 2)
+        gen_rpc_error_with_extras(ctx, uniq, 2, 6)
     };
     let mut items = Vec::new();
     // typical shapes first (small tape values), free-form sequences otherwise
@@ -315,7 +315,7 @@ pub static C08: PropSpec = PropSpec {
     runs: |t| if t == Tier::Thorough { 30_000_000 } else { 200_000 },
     enumerated: |_| 0,
     run,
-    rule: "one request of each reply type (lock, get, open-/close-configuration, load-configuration, commit-configuration) among 0-3 other outstanding requests; the server's reply is generated from the reply grammar: 0-4 rpc-error elements (all types/tags, severity error/warning, optional children) and positive indications in every order, at top level or inside load-configuration-results with consistent or inconsistent load-error-count. Non-trivial = the document contains at least one rpc-error; distinct = distinct event-log hash (includes the generated document)",
+    rule: "one request of each reply type (lock, get, open-/close-configuration, load-configuration, commit-configuration) among 0-3 other outstanding requests; the server's reply is generated from the reply grammar: 0-4 rpc-error elements (all types/tags, severity error/warning, optional children; one in six with a vendor child such as Junos's <source-daemon> or an open-ended error-info child, which the library's reader may refuse - the reply must then still not be a success and no error may vanish from the reported list) and positive indications in every order, at top level or inside load-configuration-results with consistent or inconsistent load-error-count. Non-trivial = the document contains at least one rpc-error; distinct = distinct event-log hash (includes the generated document)",
     components: &[
         ("netconf session + message readers (rpc/mod.rs, rpc/error.rs, junos/mod.rs, junos/load_configuration.rs)", "real"),
         ("transport", "stub: in-memory"),
